@@ -7,12 +7,12 @@ HERE = os.path.dirname(os.path.dirname(os.path.abspath(__file__)))
 CHECKS = {
  "C11": ("inproc", "exploration",
    "online invariant monitor on hooked LRU state + eviction-event replay against a reference recency list",
-   "Every size 1..64 (thorough 1..300) plus large sizes, four access patterns each, >=50*S operations: resident count read under each shard's own lock after every operation and every eviction event compared with a replayed per-shard LRU; a reload that configures the same cache name with another size (bound = the larger size, whichever is in effect); then end-to-end through real servers with tiny caches (with and without a store). Holds on the executions produced, not a proof.",
+   "Every size 1..64 (thorough 1..300) plus large sizes, four access patterns each, >=50*S operations: resident count read under each shard's own lock after every operation and every eviction event compared with a replayed per-shard LRU; a reload that configures the same cache name with another size (bound = the larger size, whichever is in effect); reloads applied step by step (as main.update does) with client requests arriving between the cache step and the server step while a cache is renamed away and later configured again under its old name; then end-to-end through real servers with tiny caches (with and without a store). Holds on the executions produced, not a proof.",
    "trusts lru.Cache.Len read through the tag-guarded VerifStats hook and the OnEvicted callback of groupcache; sequential access at the dispatcher level (concurrent access is C06/C20)",
    "DESIGN.md 6/C11"),
  "C14": ("inproc", "exploration",
    "reference-model monitor over exhaustive/random lookups + end-to-end origin observation",
-   "Exhaustive over ordered tuples of <=3 location shapes (2 hosts x 3 prefixes), name subsets and 15 queries against an independent routing predicate (any member of the best class accepted), sampled 4-tuples and random larger universes with duplicate names; then random configurations applied as reloads to a running server with one origin per location, incl. percent-encoded request URIs (matched as sent): which origin saw the request, 5xx and no upstream contact when nothing matches.",
+   "Exhaustive over ordered tuples of <=3 location shapes (2 hosts x 3 prefixes), name subsets and 15 queries against an independent routing predicate (any member of the best class accepted), sampled 4-tuples and random larger universes with duplicate names and prefix lengths from 1 to 236 characters; then random configurations applied as reloads to a running server with one origin per location, incl. percent-encoded request URIs (matched as sent): which origin saw the request, 5xx and no upstream contact when nothing matches.",
    "the reference predicate encodes the statement (class order prefix+host < prefix < host < none); ties inside a class are not judged",
    "DESIGN.md 6/C14"),
  "C04": ("inproc", "exploration",
@@ -37,7 +37,7 @@ CHECKS = {
    "DESIGN.md 6/C02"),
  "C18": ("inproc", "exploration",
    "reference-model replay + store inspection + ordering check on event sequence numbers + porcupine linearizability per (cache,key)",
-   "Three caches (without and with a scripted store) behind three servers sharing the Host, purges through the real admin DELETE /cache: sequential purge variants (named, unnamed, absent cache, absent key, repeated) with the persisted record inspected and the next request on every cache and on a neighbour key judged by the entry model; purge issued while the fetch is held at the origin with parked waiters (must return before the release; nobody stranded); a lookup issued while the purge sits in a slow store delete, and a purge right after a fill whose store write is slow; concurrent histories of requests, purges and clock advances checked per (cache,key) with porcupine.",
+   "Three caches (without and with a scripted store) behind three servers sharing the Host, purges through the real admin DELETE /cache: sequential purge variants (named, unnamed, absent cache, absent key, repeated; keys with percent escapes, '+' and '%25' in path and query) with the persisted record inspected and the next request on every cache and on a neighbour key judged by the entry model; purge issued while the fetch is held at the origin with parked waiters (must return before the release; nobody stranded); a lookup issued while the purge sits in a slow store delete, and a purge right after a fill whose store write is slow; concurrent histories of requests, purges and clock advances checked per (cache,key) with porcupine.",
    "which way a purge concurrent with a fetch is ordered is not judged (linearizability leaves it open); in-memory scripted store stands for the persistent one",
    "DESIGN.md 6/C18"),
  "C03": ("inproc", "exploration",
@@ -47,7 +47,7 @@ CHECKS = {
    "DESIGN.md 6/C03"),
  "C13": ("inproc", "exploration",
    "decision-table monitor (reference table vs HTTPResponse.Fill and vs the running server) + compressor call counters (hook) + byte comparison with the best-compression profile",
-   "The table dimensions of the statement are enumerated completely at the Fill level (14 Accept-Encoding values incl. tokens that merely contain 'gzip' and weighted codings, 7 stored-variant subsets, 4 sizes around two thresholds, default/custom filter, 6 content types, direct and after Cacheable()) with random bodies per cell; end-to-end through servers with default and configured thresholds/filters: compressor call counters around every hit (no per-request recompression) and around bursts of coalesced requests on cold compressible keys (exactly one gzip and one br run), stored variants byte-compared with the best-compression profile's output.",
+   "The table dimensions of the statement are enumerated completely at the Fill level (14 Accept-Encoding values incl. tokens that merely contain 'gzip' and weighted codings, 7 stored-variant subsets, 4 sizes around two thresholds, default/custom filter, 6 content types, direct and after Cacheable()) with random bodies per cell; end-to-end through servers with default and configured thresholds/filters (two of them with an 8-entry LRU over a store, earlier keys revisited after eviction; text, repetitive and incompressible bodies): compressor call counters around every hit (no per-request recompression) and around bursts of coalesced requests on cold compressible keys (exactly one gzip and one br run), stored variants byte-compared with the best-compression profile's output.",
    "where the raw length and the lengths pike can see straddle the threshold both outcomes are accepted; Accept-Encoding without q-values",
    "DESIGN.md 6/C13"),
  "C05": ("inproc", "exploration",
@@ -57,7 +57,7 @@ CHECKS = {
    "DESIGN.md 6/C05"),
  "C15": ("inproc", "exploration",
    "differential monitor: origin request log vs reference transformation of the client request; client response vs origin response + configured headers; second-client probe after conditional/Range requests",
-   "Seven locations (unchanged, the two documented rewrite forms, literal swap, added request/response headers, added query parameters, upstream Accept-Encoding override); generated methods, bodies up to 1 MiB, multi-valued and credential headers, escaped paths, queries with repeated keys/escapes/value-less parameters; chunked request bodies; conditional (matching and non-matching ETag / Last-Modified, ETag mismatch with matching Last-Modified) and Range (first bytes, suffix, multi-range, If-Range) headers on cold, hit and hit-for-pass keys (also keys whose upstream turns cacheable during the period) against an http.ServeContent origin; after client A a plain client B must receive the full 200.",
+   "Eight locations (unchanged, the two documented rewrite forms, literal swap, a two-rule rewrite chain applied rule after rule, added request/response headers, added query parameters, upstream Accept-Encoding override); generated methods, bodies up to 1 MiB, multi-valued and credential headers, escaped paths, queries with repeated keys/escapes/value-less parameters; chunked request bodies; conditional (matching and non-matching ETag / Last-Modified, ETag mismatch with matching Last-Modified) and Range (first bytes, suffix, multi-range, If-Range) headers on cold, hit and hit-for-pass keys (also keys whose upstream turns cacheable during the period) against an http.ServeContent origin; after client A a plain client B must receive the full 200.",
    "not judged: malformed queries, If-Match/412, X-Forwarded-For/User-Agent, upstream Accept-Encoding when the client sent none, conditional headers on a cold uncacheable fetch, 304 for HEAD",
    "DESIGN.md 6/C15"),
  "C06": ("inproc", "exploration",
@@ -68,11 +68,11 @@ CHECKS = {
  "C09": ("inproc", "exploration",
    "round-trip behavioural equivalence monitor + byte-level mutation with panic/hang/allocation monitors in isolated child processes",
    "Structured entries (all states, 0-200 header lines incl. UTF-8, control and non-UTF-8 bytes, every subset of body variants up to 2 MiB, profile names, filters, extreme clock values and lifetimes) are encoded, decoded and compared through the exported API (Get/Age/Fill for 6 Accept-Encoding values at +0,+1,+T,+T+1 s); on 200 valid records: truncation at every offset must error, bit flips, length-field edits, splices, random strings and crafted filter fields must not panic, hang (20 s) or allocate more than 32x input + 1 MiB (MemStats delta); records with different settings are decoded by 8 goroutines at once and must re-encode to themselves. A dead child is a verdict with the logged case index as witness.",
-   "truncation of a bare response record is not judged; thorough tier multiplies batches (40) instead of coverage-guided fuzzing",
+   "truncation of a bare response record is not judged; thorough tier multiplies batches (8) instead of coverage-guided fuzzing",
    "DESIGN.md 6/C09"),
  "C12": ("inproc", "exploration",
    "round-trip oracle with pike's, standard and independent (gzip CLI, python zlib, zstd CLI) decoders; crash/hang monitor in isolated child processes",
-   "pike's Gzip/Brotli at levels -1..12 plus out-of-range 99/-7 on lengths 0..64, powers of two +-1 up to 1 MiB and random lengths with random/text/runs/zero content; valid streams of all five formats from self-checked reference encoders (multi-member gzip, zstd CLI output, ratios beyond 200x for lz4 and far more for br/zst) must be restored exactly by pike's decoders; earlier results are kept and re-verified after later operations (no shared buffers); malformed streams (truncation incl. every offset of small streams, bit flips, header edits, random bytes, doubled streams) under a per-case watchdog in a child process.",
+   "pike's Gzip/Brotli at levels -1..12 plus out-of-range 99/-7 on lengths 0..64, powers of two +-1 up to 1 MiB and random lengths with random/text/runs/zero content; valid streams of all five formats from self-checked reference encoders (multi-member gzip, gzip headers with FNAME/FCOMMENT/FEXTRA/MTIME, brotli windows 2^10..2^24 with flushes, zstd CLI output and zstd streaming-encoder frames declaring windows 2^10..2^25, ratios beyond 200x for lz4 and far more for br/zst) must be restored exactly by pike's decoders; earlier results are kept and re-verified after later operations (no shared buffers); malformed streams (truncation incl. every offset of small streams, bit flips, header edits, random bytes, doubled streams) under a per-case watchdog in a child process.",
    "a malformed stream decoding to some bytes without error is accepted; survival + output validity stand in for memory safety of the third-party assembly decoders",
    "DESIGN.md 6/C12"),
  "C10": ("inproc", "fault_enumeration",
@@ -82,27 +82,27 @@ CHECKS = {
    "DESIGN.md 6/C10"),
  "C08": ("proc", "fault_enumeration",
    "crash-point enumeration on the real binary (self-kill at named hook points, external SIGKILL, SIGTERM) + offline check of every post-restart answer against the origin's log under a controlled clock",
-   "Real pike (race build) on a badger store with a clock-offset file. Every second case uses an LRU of 32 entries for about 100 keys. Four incarnations per case on the same store: populate (8 keys sequentially, 48 in one concurrent burst) and SIGKILL at quiescence; concurrent writes, hits and purges with the crash armed at the n-th passage of one of 8 hook points (before/after publishing, after persisting, after a load, between LRU removal and store delete), or SIGKILL at a random moment, or SIGTERM; restart and probe every key in the same second, at mid-life, at the exact expiry second and one second later; kill again, move the clock past every expiry, restart and probe (first lookup after the restart). Each answer must be a byte-identical version of that key from the origin's log, hits only inside the original lifetime with Age continuing from the original fetch and without upstream contact, never a version whose purge completed, hit-for-pass only inside a marker's period; pike must come up after every stop.",
+   "Real pike (race build) on a badger store with a clock file holding an absolute virtual time (no verdict depends on how long anything takes; the creation bound of an entry is exact). Every second case uses an LRU of 32 entries for about 100 keys. Four incarnations per case on the same store: populate (8 keys sequentially, 48 in one concurrent burst) and SIGKILL at quiescence; concurrent writes, hits and purges with the crash armed at the n-th passage of one of 8 hook points (before/after publishing, after persisting, after a load, between LRU removal and store delete), or SIGKILL at a random moment, or SIGTERM; restart and probe every key in the same second, at mid-life, at the exact expiry second and one second later; kill again, move the clock past every expiry, restart and probe (first lookup after the restart). Each answer must be a byte-identical version of that key from the origin's log, hits only inside the original lifetime with Age continuing from the original fetch and without upstream contact, never a version whose purge completed, hit-for-pass only inside a marker's period; pike must come up after every stop.",
    "refetch is always allowed; SIGKILL does not model power loss; eviction/reload with an LRU smaller than the working set is exercised in-process by C04/C05/C07/C11 with scripted stores",
    "DESIGN.md 6/C08"),
  "C17": ("proc", "exploration",
    "independent closure predicate and per-field rules vs Validate; structural round-trip comparison through the real file client; probes against freshly started real processes",
-   "Generated configurations with names and free-text values that need YAML quoting: Validate must accept each valid one and reject each of 33 single injected defects (every dangling reference at first and last position, every malformed documented field); Write then Read must return the same configuration; accepted configurations are applied to fresh real pike processes and every server is probed: no 'cache dispatcher / upstream not found', no 'location not found' where the reference router finds one.",
+   "Generated configurations with names and free-text values that need YAML quoting: Validate must accept each valid one and reject each of 33 single injected defects (every dangling reference at first and last position, every malformed documented field); Write then Read must return the same configuration; accepted configurations (names with leading/trailing white space included) are applied to fresh real pike processes and every server is probed: no 'cache dispatcher / upstream not found', no 'location not found' where the reference router finds one; two accepted configurations saved to a running instance in quick succession (the second, renaming everything the server refers to, while the first is still being applied) must leave the server resolving everything.",
    "documented field kinds only; the hostname rule is the validator's (RFC 952); duplicate names and sub-second durations are accepted by pike and not judged",
    "DESIGN.md 6/C17"),
  "C16": ("proc", "exploration",
    "differential monitor between a live-updated and a freshly started real process + continuity monitor under traffic; completion observed through hook events",
-   "Per sequence a live pike process receives 2-6 random valid updates (29 mutation kinds incl. optional fields set and unset) through the real admin PUT /config or an in-place write of the file, each completion observed via the update.done hook, while a client keeps requesting an unchanged server; a second process is started on the final configuration; a probe suite derived from that configuration is run against both and compared field by field (status, label, encoding, encoded and decoded bytes, headers, which origin saw which path, query and added headers), plus cache binding between servers, the retained hit of a key cached before the updates, and that a removed server stops listening. The unchanged server gets cacheable and uncacheable traffic and its upstream has a slow health endpoint. Eight directed sequences run every time: bestCompression override and removal; server removed and re-added at once; server switched to another cache; cache renamed; compress level set then unset; two servers removed by one update; two caches on one badger store of which one is removed (persisted entries of the survivor); restart-only cache settings changed.",
+   "Per sequence a live pike process receives 2-6 random valid updates (29 mutation kinds incl. optional fields set and unset) through the real admin PUT /config or an in-place write of the file, each completion observed via the update.done hook, while a client keeps requesting an unchanged server; a second process is started on the final configuration; a probe suite derived from that configuration is run against both and compared field by field (status, label, encoding, encoded and decoded bytes, headers, which origin saw which path, query and added headers), plus cache binding between servers, the retained hit of a key cached before the updates, and that a removed server stops listening. The unchanged server gets cacheable and uncacheable traffic and its upstream has a slow health endpoint. Nine directed sequences run every time: a configuration saved while the previous one (with an upstream whose health endpoint takes seconds) is still being applied; bestCompression override and removal; server removed and re-added at once; server switched to another cache; cache renamed; compress level set then unset; two servers removed by one update; two caches on one badger store of which one is removed (persisted entries of the survivor); restart-only cache settings changed.",
    "restart-only settings are never changed; compressors are deterministic so equal levels give equal bytes",
    "DESIGN.md 6/C16"),
  "C19": ("inproc", "fault_enumeration",
    "ground-truth monitor: the driver's up/down vector vs per-origin request counters, with settling observed through health-check activity at the origins",
-   "14 (thorough 100) upstream groups in one in-process pike whose unchanged configuration is re-applied before odd phases, plus two groups behind the real binary (eight round-robin primaries and primary+backup, all down / all up alternately: more than eight transitions to sick, no alarm URL), covering every primary/backup mix of 1-4 servers, five policies, ping-path and port health checks; origins are really stopped and restarted on the same port in phases (all down, primaries down, first down, random, recovery). After each change the driver waits for two health-check rounds observed after the change on a live server (11.5 s if none), then 12 sequential requests per group must go to healthy primaries, to healthy backups only when no primary is healthy, be balanced within 1 under round-robin, or fail with a 5xx within 2 s when nothing is healthy; traffic must resume after recovery.",
+   "14 (thorough 100) upstream groups in one in-process pike whose unchanged configuration is re-applied before odd phases, plus two groups behind the real binary (eight round-robin primaries and primary+backup, all down / all up alternately: more than eight transitions to sick, no alarm URL), covering every primary/backup mix of 1-4 servers, five policies, ping-path and port health checks; origins are really stopped and restarted on the same port in phases (all down, primaries down, first down, random, recovery). After each change the driver waits for two health-check rounds observed after the change on a live server (11.5 s if none), then 12 sequential requests per group must go to healthy primaries, to healthy backups only when no primary is healthy, be balanced within 1 under round-robin, or fail with a 5xx within 2 s when nothing is healthy (a slow answer is retried before it is judged); traffic must resume after recovery. Finally, with everything healthy, single requests fail for reasons that are not the server's (client gives up after 150 ms, location proxy timeout of 1.5 s) and one slow request is held on every primary of groups with backups: the following 12 requests are judged by the same rule.",
    "the upstream library's 5 s ticker has no clock seam (wall-clock bound); behaviour inside the unsettled window is not judged",
    "DESIGN.md 6/C19"),
  "C20": ("inproc", "exploration",
    "Go race detector over a mixed stress workload (logs parsed and de-duplicated by outermost pike entry-point pair) + per-response integrity oracle + crash monitor; in-process child and real binary",
-   "A race-instrumented child process runs pike in-process with two servers/caches, 1 s lifetimes and hit-for-pass on the real clock, 64 clients (hot, cold and uncacheable keys, GET/HEAD/POST, six Accept-Encoding values, matching and non-matching validators), a purger through the admin API and a reloader alternating two configurations through the calls main.update uses, with hook callbacks removed; every answer must be well-formed and equal to what the upstream produces for its key (304 only for matching validators). A directed schedule releases a woken waiter and the next request without ordering them. The real binary runs under 16 clients and a storm of admin config saves. Every race report with a pike frame and every crash is a violation.",
+   "A race-instrumented child process runs pike in-process with two servers/caches, 1 s lifetimes and hit-for-pass on the real clock, 64 clients (12 hot keys, 600 long-lived warm keys of equal length over caches of 64 and 400 entries, cold and uncacheable keys, GET/HEAD/POST, six Accept-Encoding values, matching and non-matching validators), a purger through the admin API and a reloader alternating two configurations (three of four reloads add a compress level for a never-seen encoding name) through the calls main.update uses, with hook callbacks removed; every answer must be well-formed and equal to what the upstream produces for its key (304 only for matching validators). The same stress is repeated from a build without race instrumentation (about ten times the requests; functional oracle only), once with the same mix and once with nine in ten requests on the warm keys. A directed schedule releases a woken waiter and the next request without ordering them. The real binary runs under 16 clients and a storm of admin config saves. Every race report with a pike frame and every crash is a violation.",
    "the race detector only sees produced interleavings; a request landing between two steps of one reload may get pike's own 503 not-found (counted, not judged here)",
    "DESIGN.md 6/C20"),
 }
